@@ -694,10 +694,15 @@ package rapid
 //@ func (*customGen).maybeValue
 //@   immutable g
 //   A failure of the generator function leaves maybeValue as a failure, whatever the inner T's cleanups do (C02).
+//   ... and as the panic it is: it stays in flight until it has left maybeValue (a panic that is recovered and
+//   signalled again later - by failOnError, say - would be reported at that later place, the same for every failure
+//   site inside the generator function: C05).
+//@   at t.failOnError#0 assert [C05] implies(genFalsified, inpanic)
 //@   at g.fn#0 set genFalsified = false
 //@   at g.fn#0 onpanic genFalsified = !isInvalidData(panicval)
 //@   ensures [C02] !genFalsified
-//@   panics any [C02]: implies(genFalsified, !isInvalidData(panicval))
+//   However the generator function ended, its context is cancelled and its cleanups have run when maybeValue is left (C10).
+//@   panics any [C02,C10,C11]: implies(genFalsified, !isInvalidData(panicval)) && len(now(t).cleanups) == 0 && now(t).ctx == nil && now(t).cancelCtx == nil
 //@   ensures [C15] true
 //@   noframe "calls the user's generator function on a fresh inner T"
 //@   requires [C02] g.fn != nil
@@ -776,10 +781,15 @@ package rapid
 //@   requires [C08] t.failed == "" && unlocked(t)
 //@   requires [C08] pendingCheck
 //@   ensures [C08] t.failed == "" && unlocked(t)
+//   Repeat does not return without having run the invariant, whatever the step budget - unless there is no action at all.
+//@   ensures [C08] implies(pendingCheck, len(now(actionKeys)) == 0)
 //   Repeat itself obeys what is assumed of user code holding a *T (it is one of the ways user code reaches the stream):
 //@   ensures [C04] drawRely(t)
 //@   panics any [C04,C08]: drawRely(t)
-//@   modifies drawn, pendingCheck, t.failed, t.cleanups, elems(t.cleanups), t.ctx, t.cancelCtx, t.draws, lockmode[addr(t.mu)], stream(t.s), discardsAtAction, lastWord, onceDone, onceIn, discards, t.attempts
+//@   modifies drawn, pendingCheck, t.failed, t.cleanups, elems(t.cleanups), t.ctx, t.cancelCtx, t.draws, lockmode[addr(t.mu)], stream(t.s), discardsAtAction, lastWord, onceDone, onceIn, discards, t.attempts, sortedG
+//   The action drawn for given bits does not depend on the iteration order of the actions map (C04, C07): the names
+//   are sampled from a slice in the total order on strings (map keys are distinct, so that order is unique).
+//@   at SampledFrom#0 assert [C04,C07] sortedG[arr(arg0)]
 //@   at sm.check#0 assert [C08] pendingCheck && t.failed == ""
 //@   at sm.check#0 set pendingCheck = false
 //@   at repeat.more#0 assert [C08] !pendingCheck
@@ -805,8 +815,24 @@ package rapid
 // untilG: what time.Until(deadline) returned in the current iteration of findBug
 //@ ghost untilG (_ BitVec 64)
 
+// caseWall/caseExt/caseRuns: the time stamp taken at the start of the current test case of findBug, and the number of
+// cases run when it was taken; totalG: the sum of the measured case durations so far
+//@ ghost caseWall (_ BitVec 64)
+//@ ghost caseExt (_ BitVec 64)
+//@ ghost caseRuns (_ BitVec 64)
+//@ ghost totalG (_ BitVec 64)
+
 //@ func findBug
 //@   noframe "runs the property"
+//   The average that decides the early exit is over the cases' own durations (C09): each is measured from a stamp taken
+//   after the previous case ended, and `total` is their sum.
+//@   at time.Now#0 set caseWall = result.wall
+//@   at time.Now#0 set caseExt = result.ext
+//@   at time.Now#0 set caseRuns = runs
+//@   at time.Since#0 assert [C09] arg0.wall == caseWall && arg0.ext == caseExt && caseRuns + 1 == runs
+//@   at newT#0 set totalG = 0
+//@   at time.Since#0 set totalG = totalG + result
+//@   loop 0 invariant [C09] total == totalG
 //@   requires [C09] 0 <= checks && checks <= math.MaxInt/10
 //@   requires [C11] prop != nil
 //@   requires [C02] !sawFailure
@@ -822,7 +848,7 @@ package rapid
 //@   ensures [C09] implies(result2, now(iter) > 0 && int64(untilG) < int64(now(total)) / int64(now(iter)) * 5)
 //@   at time.Until#0 set untilG = result
 //@   ensures [C01,C02] sawFailure == (result4 != nil)
-//@   modifies heap, drawn, runs, lastInit, sawFailure, lockmode, cancelled, cleanupSkipped, propFalsified, untilG, discards, cleanupFalsified, cbFalsified
+//@   modifies heap, drawn, runs, lastInit, sawFailure, lockmode, cancelled, cleanupSkipped, propFalsified, untilG, discards, cleanupFalsified, cbFalsified, caseWall, caseExt, caseRuns, totalG
 //@   at r.init#0 assert [C07] implies(valid + invalid == 0, arg0 == old(seed))
 //   Test cases within one run differ (C18): every case is seeded differently from the one before it.
 //@   at r.init#0 assert [C18] implies(valid + invalid > 0, arg0 != lastInit)
@@ -883,9 +909,11 @@ package rapid
 //@   ensures [C16] implies(result == nil, fsRenamed)
 //@   ensures [C16] implies(fsRenamed != old(fsRenamed), fsClosed)
 //@   ensures [C16] old(fsRenames) <= fsRenames && fsRenames <= old(fsRenames) + 1
-//@   modifies fsWritten, fsClosed, fsRenamed, fsTmpName, fsTmpDir, fsRenamedAtCreate, fsRenames, joinedG, fsOtherCreate
+//@   modifies fsWritten, fsClosed, fsRenamed, fsTmpName, fsTmpDir, fsRenamedAtCreate, fsRenames, joinedG, fsOtherCreate, fsWriteErr
 //@   at os.CreateTemp#0 assert [C06,C16] arg1 == ".rapid-failfile-tmp-*" && arg0 == dir
 //@   at os.Rename#0 assert [C16] fsClosed && arg0 == fsTmpName && arg1 == filename && fsTmpDir == dir
+//   Only a completely written file is promoted: no write to it has reported an error (C16).
+//@   at os.Rename#0 assert [C16] !fsWriteErr
 //   Content (C06): the data part is one header line made from version and seed, then one line per word of buf, in
 //   order, joined by newlines and written in one piece (the text of each line is fmt's business).
 //@   at fmt.Sprintf#0 assert [C06] strOf(arg1[0]) == version && bvOf(arg1[1]) == seed
@@ -894,8 +922,8 @@ package rapid
 //@   at strings.Join#0 assert [C06] arr(arg0) == arr(bs) && off(arg0) == off(bs) && len(arg0) == len(buf) + 1 && arg1 == "\n"
 //@   at strings.Join#0 set joinedG = result
 //@   at f.WriteString#1 assert [C06] arg0 == joinedG
-//@   loop 0 invariant [C16] !fsClosed && fsRenamed == old(fsRenamed) && fsRenamed == fsRenamedAtCreate && fsTmpDir == dir && -1 <= rangeindex && rangeindex < len(out)
-//@   loop 1 invariant [C16] !fsClosed && fsRenamed == old(fsRenamed) && fsRenamed == fsRenamedAtCreate && fsTmpDir == dir && -1 <= rangeindex && rangeindex < len(buf)
+//@   loop 0 invariant [C16] !fsWriteErr && !fsClosed && fsRenamed == old(fsRenamed) && fsRenamed == fsRenamedAtCreate && fsTmpDir == dir && -1 <= rangeindex && rangeindex < len(out)
+//@   loop 1 invariant [C16] !fsWriteErr && !fsClosed && fsRenamed == old(fsRenamed) && fsRenamed == fsRenamedAtCreate && fsTmpDir == dir && -1 <= rangeindex && rangeindex < len(buf)
 //@   loop 1 invariant [C06] len(bs) == rangeindex + 2
 
 //@ func sameError
@@ -947,7 +975,7 @@ package rapid
 //@   ensures [C07] implies(searched && (result6 != nil || result7 != nil), result3 == lastInit)
 //@   ensures [C09] implies(result6 == nil && result7 == nil, searched && result3 == 0 && result4 == "")
 //@   ensures [C02,C17] tbFailed == old(tbFailed) && tbErrors == old(tbErrors)
-//@   modifies heap, drawn, runs, lastInit, searched, sawFailure, lockmode, cancelled, ffFalsified, cleanupSkipped, propFalsified, runesWritten, ioFailed, fsClosed, cmpAt, lessAt, untilG, ffTried, discards, globbed, cleanupFalsified, cbFalsified
+//@   modifies heap, drawn, runs, lastInit, searched, sawFailure, lockmode, cancelled, ffFalsified, cleanupSkipped, propFalsified, runesWritten, ioFailed, fsClosed, cmpAt, lessAt, untilG, ffTried, discards, globbed, cleanupFalsified, cbFalsified, caseExt, caseRuns, caseWall, totalG
 //@   at findBug#0 assert [C07,C17,C18] seed == old(seed) && checks == old(checks) && !tbFailed
 //@   at failFilePattern#0 assert [C06] arg0 == tbNameOf(tb)
 //   The test's own fail-file directory is searched whenever the caller asks for it, whether or not an explicit
@@ -991,7 +1019,7 @@ package rapid
 //@   ensures [C09] tbErrors == old(tbErrors)
 //@   panics goexit [C02,C06,C09,C16]: tbFailed && tbErrors == old(tbErrors) + 1 && fsRenames <= old(fsRenames) + 1
 //@   ensures [C06,C16] fsRenames <= old(fsRenames) + 1
-//@   modifies heap, drawn, runs, lastInit, searched, sawFailure, lockmode, cancelled, tbFailed, tbErrors, fsWritten, fsClosed, fsRenamed, fsTmpName, fsTmpDir, fsRenamedAtCreate, fsRenames, runesWritten, capturedOut, cleanupSkipped, ffFalsified, propFalsified, ioFailed, cmpAt, lessAt, untilG, joinedG, fsOtherCreate, ffTried, discards, cleanupFalsified, globbed, cbFalsified
+//@   modifies heap, drawn, runs, lastInit, searched, sawFailure, lockmode, cancelled, tbFailed, tbErrors, fsWritten, fsClosed, fsRenamed, fsTmpName, fsTmpDir, fsRenamedAtCreate, fsRenames, runesWritten, capturedOut, cleanupSkipped, ffFalsified, propFalsified, ioFailed, cmpAt, lessAt, untilG, joinedG, fsOtherCreate, ffTried, discards, cleanupFalsified, globbed, cbFalsified, fsWriteErr, caseExt, caseRuns, caseWall, totalG
 //@   at captureTestOutput#0 set capturedOut = arr(result)
 //@   at saveFailFile#0 assert [C06,C16] fsRenames == old(fsRenames) && arr(arg2) == capturedOut
 //   The fail file is saved under the directory and name derived from the very test name that doCheck globs for.
@@ -1178,6 +1206,10 @@ package rapid
 
 //@ func (*shrinker).accept
 //@   noframe "runs the property"
+//   Whether a candidate is tried depends on this shrink alone (C12, C05): accept consults no process-wide state but
+//   the command-line flags - a memory of rejected candidates that outlives the shrink would answer for another
+//   property (or another failure) under the same test name.
+//@   globals [C05,C12] flags
 //@   at compareData#0 set lessAt = cmpAt
 //@   at dataStr#0 assert [C05,C12] arr(arg0) == arr(buf) && off(arg0) == off(buf) && len(arg0) == len(buf)
 //@   assumes-pre !flags.debugvis
@@ -1186,6 +1218,9 @@ package rapid
 //@   ensures [C01,C05] s.prop != nil && s.err != nil && s.err.traceback != "    <no error>\n" && s.rec.persist && recWF(addr(s.rec))
 //@   ensures [C05] implies(!result, s.err == old(s.err) && arr(s.rec.data) == old(arr(s.rec.data)) && off(s.rec.data) == old(off(s.rec.data)) && len(s.rec.data) == old(len(s.rec.data)) && s.shrinks == old(s.shrinks))
 //@   ensures [C01,C12] implies(result, s.err == now(err1) && now(err1) != nil)
+//   The recording that becomes the new best is that of a run that failed (C11, C01): a candidate whose second run
+//   passes is never accepted.
+//@   ensures [C01,C11] implies(result, now(err2) != nil)
 //@   ensures [C05] implies(result, tbOf(s.err) == tbOf(old(s.err)) && s.shrinks == old(s.shrinks) + 1)
 //@   ensures [C05] implies(result, old(lessData(buf, s.rec.data)))
 //@   ensures [C05] implies(result, len(s.rec.data) <= len(buf))
@@ -1224,14 +1259,30 @@ package rapid
 //@   checks-publication
 //@   nosafety "C15 is about what is written, not about index safety; the cache only ever holds []rune values"
 //@   assumes-pre forall(k, 0, len(t.R16), t.R16[k].Stride != 0) && forall(k, 0, len(t.R32), t.R32[k].Stride != 0)
-//@   ensures [C15] true
-//@   modifies published
+//   What is handed out is the cached table itself: shared memory from here on.
+//@   ensures [C15] arr(result) == nil || published[arr(result)]
+//@   ensures [C15] arr(result) == nil || fresh(arr(result)) || old(published[arr(result)])
+//   A cache miss returns the very table it stores - a later hit then hands out the same runes (the table a generator
+//   draws from does not depend on whether the process has expanded the class before: C07, C04).
+//@   at expandedTables.Store#0 assert [C04,C07,C15] arr(boxed1) == arr(ret) && off(boxed1) == off(ret) && len(boxed1) == len(ret)
+//@   modifies published[arr(result)]
 //@   loop 0 invariant [C15] -1 <= rangeindex && rangeindex < len(t.R16)
 //@   loop 1 invariant [C15] -1 <= rangeindex && rangeindex < len(t.R32)
-//@   loop 2 invariant [C15] -1 <= rangeindex && rangeindex < len(t.R16) && (arr(ret) == nil || !published[arr(ret)])
-//@   loop 3 invariant [C15] arr(ret) == nil || !published[arr(ret)]
-//@   loop 4 invariant [C15] -1 <= rangeindex && rangeindex < len(t.R32) && (arr(ret) == nil || !published[arr(ret)])
-//@   loop 5 invariant [C15] arr(ret) == nil || !published[arr(ret)]
+//@   loop 2 invariant [C15] -1 <= rangeindex && rangeindex < len(t.R16) && (arr(ret) == nil || !published[arr(ret)] && fresh(arr(ret)))
+//@   loop 3 invariant [C15] arr(ret) == nil || !published[arr(ret)] && fresh(arr(ret))
+//@   loop 4 invariant [C15] -1 <= rangeindex && rangeindex < len(t.R32) && (arr(ret) == nil || !published[arr(ret)] && fresh(arr(ret)))
+//@   loop 5 invariant [C15] arr(ret) == nil || !published[arr(ret)] && fresh(arr(ret))
+
+// A character-class generator is built around the table the process-wide cache hands out: that table is shared with
+// every other generator of the class (and with concurrent checks) and is used as it is, never written (C15).
+//@ func charClassGen
+//@   checks-publication
+//@   noframe "process-wide sync.Map caches"
+//@   nosafety "C15 is about what is written to shared memory, not about index safety"
+//@   ensures [C15] true
+//@   panics any: true
+//@   modifies published, heap, reStr, nameCached
+//@   loop 0 invariant [C15] arr(t.R32) == nil || !published[arr(t.R32)]
 
 //@ func (*deferredGen).value
 //@   immutable g
@@ -1367,6 +1418,17 @@ package rapid
 //@ func (*Generator).AsAny
 //@   trusted "definitional: the values of g.AsAny() are the values of g, so they have V's kind"
 //@   ensures dynKind(result) == elemkind(g)
+
+// The generator Make builds for a type is made from that reflect.Type alone: newMakeGen consults (and keeps) no
+// process-wide state - a memory of generators under any key coarser than the type itself would hand one type's
+// generator to another (C03: the requested dynamic type).
+//@ func newMakeGen
+//@   noframe "allocates generators"
+//@   nosafety "reflection: only the frame is under proof"
+//@   globals [C03] nothing
+//@   ensures [C03] true
+//@   panics any: true
+//@   modifies wantKind
 
 //@ func newMakeKindGen
 //@   noframe "allocates generators"
@@ -1666,4 +1728,4 @@ package rapid
 //@   at regexpNames.Store#0 assert [C15] strOf(arg1) == reStr
 //@   ensures [C15] implies(!nameCached, result == reStr)
 //@   panics any: true
-//@   modifies reStr, nameCached, published, heap
+//@   modifies reStr, nameCached, heap
